@@ -1,11 +1,13 @@
 (* C08 - well-formed JSON is recognised, whole or truncated.
-   PARTIAL in this revision: the completeness induction (RFC 8259 document => accepted, at every cut)
-   is not yet mechanised; what is proved here is the priority structure the property's exception clause
-   refers to, on the regenerated tree, and the whole/truncated decision of jsonHelper.  The property
-   itself is decided on the implementation by the generator-driven correspondence (every cut of
-   generated RFC 8259 documents, confirmed valid by encoding/json) and the exhaustive comparison
-   with the verified-sound model. *)
-From Verif Require Import Base.Bytes Model.Types Model.Json Model.Detect Gen.TreeData Gen.Tables.
+   PARTIAL: proved is completeness in WHOLE mode - every document of Spec/JsonGrammar8259.v (RFC 8259
+   numbers, strings with all escapes, literals, arbitrary white space, arrays and objects; a superset of
+   RFC 8259 texts that are arrays or objects) whose nesting depth is within the recursion cap is accepted by
+   the JSON detector when examined in full - together with the whole/truncated decision and the priority
+   structure the exception clause refers to.  The TRUNCATED case (every cut after the opening bracket) is
+   decided on the implementation: generator-produced documents confirmed by encoding/json, every cut,
+   plus exhaustive agreement implementation = model = grammar judge on all short strings. *)
+From Verif Require Import Base.Bytes Model.Types Model.Json Model.Detect Gen.TreeData Gen.Tables
+  Spec.JsonGrammar Spec.JsonGrammar8259 Proofs.JsonComplete.
 
 Definition text_kids : list string :=
   match nth_error nodes text_id with Some n => map (fun i => match nth_error nodes i with Some c => n_var c | None => ""%string end) (n_children n) | None => [] end.
@@ -34,6 +36,45 @@ Proof.
   - apply andb_true_iff in H as [H _]. apply Nat.eqb_eq, H.
 Qed.
 Print Assumptions C08_decision.
+
+(* completeness of the scanner: values, array tails and object tails of any depth within the cap, for every
+   query table, at every level, followed by anything a document may continue with *)
+Theorem C08_scanner_complete :
+  forall maxrec qs tk,
+    (forall d v, SVal d v -> complete_any maxrec qs tk d v) /\
+    (forall d t, SArrTail d t -> complete_arr maxrec qs tk d t) /\
+    (forall d t, SObjTail d t -> complete_obj maxrec qs tk d t).
+Proof. exact complete_all. Qed.
+Print Assumptions C08_scanner_complete.
+
+(* the property, whole mode: every document of depth <= cap examined in full (limit 0 or shorter than the
+   limit) is reported by the JSON detector *)
+Theorem C08_whole :
+  forall maxrec tk want, N.land (tok_of tk 91) want <> 0%N -> N.land (tok_of tk 123) want <> 0%N ->
+  forall d raw limit, SDoc d raw -> d <= maxrec -> (limit = 0 \/ N.of_nat (length raw) < limit)%N ->
+    json_helper maxrec tk [] want raw limit = true.
+Proof. exact json_complete_whole. Qed.
+Print Assumptions C08_whole.
+
+(* instance: magic.JSON of the regenerated tables (cap 4096, QueryNone, TokObject|TokArray) *)
+Theorem C08_whole_detector :
+  forall d raw limit, SDoc d raw -> d <= 4096 -> (limit = 0 \/ N.of_nat (length raw) < limit)%N ->
+    json_family "none"%string (N.lor tok_object tok_array) raw limit = true.
+Proof.
+  intros d raw limit Hd Hle Hl. unfold json_family.
+  change (queries_of "none"%string) with (@nil query).
+  apply (json_complete_whole maxrec tokens (N.lor tok_object tok_array)) with (d := d); try assumption; try (vm_compute; discriminate).
+Qed.
+Print Assumptions C08_whole_detector.
+
+Example C08_doc_example : SDoc 1 [91;49;93]%N.    (* the document [1] *)
+Proof.
+  exists [], [91;49;93]%N, []. split; [reflexivity|]. split; [constructor|]. split; [constructor|]. split.
+  - apply (SV_arr 0 [49;93]%N). apply (SA_last 0 0 [] [49]%N []); [constructor| |lia|constructor].
+    apply SV_num. exists [], [49]%N, [], []. split; [reflexivity|]. split; [left; reflexivity|].
+    split; [right; exists 49%N, []; split; [reflexivity|split; [reflexivity|constructor]]|]. split; left; reflexivity.
+  - exists [49;93]%N. left. reflexivity.
+Qed.
 
 Example C08_cut_inside_string : json_family "none"%string (N.lor tok_object tok_array) (b "["",") 3 = true.
 Proof. vm_compute. reflexivity. Qed.
